@@ -116,6 +116,16 @@ class Mapper:
             return ("B", t.count())
         if name == "_cmp_coefficient":
             return ("C", t.count(), self.fs(t.ufl_function_space()))
+        if name == "_cmp_geometric_quantity":
+            # repaired comparator: coordinate element repr, then the mesh id as an integer, then repr
+            d = t.ufl_domains()[0]
+            ms = getattr(d, "meshes", None)
+            if not isinstance(d, Mesh) or ms is None or len(ms) != 1:
+                raise TieBroken("geometric quantity on a domain that is not a single Mesh")
+            key = repr(d.ufl_coordinate_element())
+            if not key.isascii() or repr(t) != f"{type(t).__name__}(Mesh({key}, {d.ufl_id()}))":
+                raise TieBroken("repr of a geometric quantity is not ClassName(Mesh(<element>, <id>)): " + repr(t))
+            return ("G", key, d.ufl_id())
         if hasattr(t, "_count"):
             # a terminal class newly registered with a comparator: assume a numeric count comparison
             # (the correspondence check validates the assumption)
@@ -180,6 +190,8 @@ class Emitter:
             return f"TCoef {self.num(d[1])} {self.num(d[2])}"
         if k == "B":
             return f"TLabel {self.num(d[1])}"
+        if k == "G":
+            return f"TGeo {self.str(d[1])} {self.num(d[2])}"
         if k == "R":
             ps = "; ".join(f"PLit {self.str(p[1])}" if p[0] == "lit" else f"PCnt {p[1]} {self.num(p[2])}"
                            for p in d[1])
@@ -230,7 +242,7 @@ def m_zipc(l1, l2, strict=False):
     return _c(len(l1), len(l2)) if strict else 0
 
 
-_KIND = {"M": 0, "A": 1, "C": 2, "B": 3, "R": 4}
+_KIND = {"M": 0, "A": 1, "C": 2, "B": 3, "R": 4, "G": 5}
 
 
 def m_cmp_data(d, e, strict=False):
@@ -251,6 +263,8 @@ def m_cmp_data(d, e, strict=False):
         return _c(d[1], e[1])
     if k == "B":
         return 0
+    if k == "G":
+        return _c(d[1], e[1]) or _c(d[2], e[2])
     return _c(render(d[1]), render(e[1]))
 
 
@@ -297,6 +311,8 @@ def m_erase(a):
         d = ("C", d[1], 0)
     elif k == "B":
         d = ("B", 0)
+    elif k == "G":
+        pass
     else:
         d = ("R", render(d[1]))
     return ("L", a[1], d)
